@@ -29,6 +29,12 @@ pub(crate) fn spawn(
       rx.try_recv_batch_mut(&mut drain_buf, rcvbatch_count - 1);
 
       for batch in drain_buf.drain(..) {
+        // A message holds at most FrameBatch::MAX_FRAMES frames: a longer one is a protocol error of
+        // the peer (over tcp the engine closes the connection); extending past the limit would panic.
+        if accumulator.len() + batch.len() > FrameBatch::MAX_FRAMES {
+          tracing::warn!(reader_task_id, uri = %endpoint_uri, "DirectInproc reader: multipart message exceeds the frame limit, closing.");
+          break 'outer;
+        }
         accumulator.extend(batch);
         if accumulator.last_mut().map(|m| !m.is_more()).unwrap_or(false) {
           out.push_back(std::mem::replace(&mut accumulator, FrameBatch::new()));
